@@ -402,6 +402,14 @@ def run(ctx):
     arr = [p for p in paths if p.returns]
     ok = bool(sl) and all(p.outcome[0] == "raise" for p in sl) and bool(arr) and all(p.retval == ("ctor", "Array", (cnt, SELF), ()) for p in arr)
     ctx.ob("C12.R1", fi, ok, "x[n] is Array(n, x) and slices are rejected", key="getitem")
+    isint, iscall = ("call", ("free", "isinstance"), (cnt, ("free", "int")), ()), ("call", ("free", "callable"), (cnt,), ())
+    other = [p for p in paths if p.outcome[0] == "raise" and p not in sl]
+    def _flat(p):
+        out = set()
+        for g in p.guards():
+            out |= set(g[2]) if g[0] == "bool" and g[1] == "and" else {g}
+        return out
+    ctx.ob("C12.R1", fi, all({N.mk_not(isint), N.mk_not(iscall)} <= _flat(p) for p in other), "x[n] accepts every integer and every callable count (it refuses only what is neither)", key="getitem accepts")
     for dunder, cls in (("__add__", "Struct"), ("__rshift__", "Sequence")):
         fi, paths = own_method_paths(ctx, "Construct", dunder)
         o = ("param", "other")
